@@ -190,7 +190,9 @@ impl<'i> Scalars<'i> {
             (Ok(None), _) => Err(CatchableError::VariableWasNotInitializedAfterNew(name.to_string()).into()),
             (Ok(Some(value)), None) => Ok(ScalarRef::Value(value)),
             (Err(_), Some(iterable_value)) => Ok(ScalarRef::IterableValue(iterable_value)),
-            (Ok(_), Some(_)) => unreachable!("this is checked on the parsing stage"),
+            // the parser doesn't reject a fold iterator named as an already defined scalar,
+            // so it must be an error and not a panic
+            (Ok(_), Some(_)) => Err(UncatchableError::IterableShadowing(name.to_string()).into()),
         }
     }
 
